@@ -358,7 +358,12 @@ impl Solver {
         self.log(json!({"fault": kind, "at_command": at, "cmd": text}));
         let msg = "injected-command-fault-message-with-(parens)";
         match kind.as_str() {
-            "cmd-error" => out(&format!("(error \"{msg}\")")),
+            "cmd-error" => {
+                // the error is reported and the session carries on; the command itself still takes effect, so that
+                // the rest of the conversation does not drown in follow-up errors
+                out(&format!("(error \"{msg}\")"));
+                return false;
+            }
             "cmd-error-exit" => {
                 out(&format!("(error \"{msg}\")"));
                 std::process::exit(1);
